@@ -40,6 +40,7 @@ type Profile struct {
 	Queries     bool   // resources 0 and 1 are query resources (normalisation q=K -> q=K mod 2) with query events
 	LongRids    bool   // resource ids around the control-line limit
 	Endgame     bool   // finish by disconnecting every client and firing every eviction timer
+	HTTP        bool   `json:",omitempty"` // HTTP GET / HEAD / POST requests (temporary connections) besides the WebSocket clients
 	ResetFaults bool   `json:",omitempty"` // get requests for resources that did not change silently may fail (re-fetches of resets included)
 	Legacy      bool   `json:",omitempty"` // some clients negotiate protocol 1.2.0 / 1.1.1 or send no version request
 	Scenario    string `json:",omitempty"` // phase-structured histories (scenario.go) instead of independent random stimuli
@@ -299,6 +300,8 @@ func (x *Explorer) answerFor(q *gw.Req) gw.Action {
 		switch {
 		case fault && x.R.Intn(2) == 0:
 			a.Err, a.Abs = "timeout", "err\tsystem.timeout"
+		case fault && x.P.HTTP && x.R.Intn(2) == 0:
+			a.Text, a.Abs = `{"error":{"code":"system.methodNotFound","message":"Method not found"}}`, "err\tsystem.methodNotFound"
 		case fault:
 			a.Text, a.Abs = `{"error":{"code":"system.internalError","message":"boom"}}`, "err\tsystem.internalError"
 		case c == nil:
@@ -327,6 +330,7 @@ func (x *Explorer) answerFor(q *gw.Req) gw.Action {
 		default:
 			a.Text, a.Abs = `{"result":{"get":true,"call":"`+pol.call+`"}}`, "access\t1\t"+fmt.Sprintf("%x", pol.call)
 		}
+		a.Text = x.withMeta(a.Text)
 	case "call", "auth":
 		switch {
 		case fault:
@@ -342,6 +346,7 @@ func (x *Explorer) answerFor(q *gw.Req) gw.Action {
 			v := x.fresh()
 			a.Text, a.Abs = `{"result":`+strconv.Itoa(v)+`}`, "result\tp"+strconv.Itoa(v)
 		}
+		a.Text = x.withMeta(a.Text)
 	default:
 		a.Text, a.Abs = `{"result":null}`, "result\tnull"
 	}
@@ -544,6 +549,46 @@ func (x *Explorer) clientFrame(c *gw.Client) (gw.Action, bool) {
 	return gw.Action{A: "frame", C: c.Label, Text: frame}, true
 }
 
+// withMeta adds, in HTTP profiles and for some answers (successes and errors alike), a meta object whose header names come
+// in arbitrary letter case and include the names the gateway protects; the values carry the marker "evil".
+func (x *Explorer) withMeta(text string) string {
+	if !x.P.HTTP || x.R.Intn(4) != 0 || !strings.HasPrefix(text, "{") {
+		return text
+	}
+	names := []string{"content-type", "Content-Type", "CONTENT-TYPE", "access-control-allow-origin", "Access-Control-Allow-Credentials",
+		"sec-websocket-protocol", "Set-Cookie", "set-cookie", "X-Custom", "x-custom"}
+	var hs []string
+	for k := 1 + x.R.Intn(3); k > 0; k-- {
+		hs = append(hs, `"`+names[x.R.Intn(len(names))]+`":["evil`+strconv.Itoa(x.fresh())+`"]`)
+	}
+	return `{"meta":{"header":{` + strings.Join(hs, ",") + `}},` + text[1:]
+}
+
+// httpRequest issues an HTTP request on a temporary connection: GET / HEAD of a resource (sometimes with a query), POST
+// of a call (sometimes with a query, sometimes with a last path segment that decodes to an invalid method name), a
+// method the gateway does not map, or a path that is no resource id.
+func (x *Explorer) httpRequest() {
+	n := x.R.Intn(x.P.Resources)
+	path := "/api/test/r" + strconv.Itoa(n)
+	q := x.R.Pick("", "", "", "?q=1", "?q=2")
+	var method, url string
+	switch x.R.Intn(12) {
+	case 0, 1, 2, 3:
+		method, url = "GET", path+q
+	case 4, 5:
+		method, url = "HEAD", path+q
+	case 6, 7, 8:
+		method, url = "POST", path+"/"+x.R.Pick("set", "foo", "bar")+q
+	case 9:
+		method, url = "POST", path+"/"+x.R.Pick("act%20ion", "a%2Eb", "m%0D%0Ax", "%2A", "set%3E")+q
+	case 10:
+		method, url = x.R.Pick("PUT", "DELETE", "PATCH"), path+q
+	default:
+		method, url = x.R.Pick("GET", "HEAD", "POST"), x.R.Pick("/api/test//r0", "/api/test/r0/", "/api/", "/api/test/*", "/api/test/r%201", "/api/test.r0", "/other/test/r0")
+	}
+	x.Run.Do(gw.Action{A: "http", Method: method, Subj: url})
+}
+
 // noteResponses keeps the outstanding-request bookkeeping in step with responses seen in the trace.
 func (x *Explorer) noteResponses(from int) {
 	for _, l := range x.Run.Lines[from:] {
@@ -666,6 +711,8 @@ func Explore(seed int64, p Profile) (run *gw.Run, stall error) {
 		}
 		k := x.R.Intn(100)
 		switch {
+		case k < 22 && p.HTTP:
+			x.httpRequest()
 		case k < 45 && len(live) > 0:
 			cl := live[x.R.Intn(len(live))]
 			if x.focusC >= 0 && x.R.Intn(10) < 6 {
@@ -711,6 +758,12 @@ func Explore(seed int64, p Profile) (run *gw.Run, stall error) {
 			closed[x.Run][c.Label] = true
 		case k < 91 && p.Evict:
 			x.Run.Do(gw.Action{A: "evict", Subj: name(x.R.Intn(p.Resources))})
+		case k < 94 && p.Tokens && p.HTTP && x.R.Intn(2) == 0 && len(x.Run.W.OpenHTTP()) > 0:
+			// a token event for the temporary connection of an HTTP request in progress
+			hs := x.Run.W.OpenHTTP()
+			h := hs[x.R.Intn(len(hs))]
+			t := 1 + x.R.Intn(2)
+			x.Run.Do(gw.Action{A: "connevent", C: h, Ev: "token", Text: fmt.Sprintf(`{"token":{"t":%d},"tid":"tid%d"}`, t, t), Abs: fmt.Sprintf("token\tt%d\ttid%d", t, t)})
 		case k < 94 && p.Tokens && len(live) > 0:
 			c := live[x.R.Intn(len(live))]
 			switch x.R.Intn(5) {
